@@ -137,11 +137,86 @@ def check_get_type(ctx):
     other = [r for r in rets if r not in unknown and not is_attr(r.value, 'normalized')]
     ctx.ob('R18.2', 'unknown-arm', loc, 'every other return is the constant "UNKNOWN" or a DML token\'s normalized text', len(unknown) >= 1 and not other,
            f'other returns: {[src(r) for r in other]}')
-    # CTE arm
-    cte = [n for n in own_nodes(g.node) if isinstance(n, ast.Compare) and 'CTE' in src(n)]
-    ok = bool(cte) and any(isinstance(n, ast.While) for n in own_nodes(g.node)) and any(
-        isinstance(n, ast.Call) and is_name(n.func, 'isinstance') and 'IdentifierList' in src(n) and 'Identifier' in src(n) for n in own_nodes(g.node))
-    ctx.ob('R18.2', 'cte-arm', loc, 'a Keyword.CTE lead walks Identifier/IdentifierList definitions to the following DML keyword', ok, '')
+    check_get_type_sim(ctx, g)
+
+
+def check_get_type_sim(ctx, g):
+    """get_type decided on concrete statement heads: the source of Statement.get_type (and of the TokenList helpers it calls)
+    is interpreted on small trees; the answer must be the upper-cased leading DML/DDL keyword, for a WITH statement the DML
+    keyword that follows the CTE definitions -- whatever shape grouping gives the definitions -- and UNKNOWN otherwise."""
+    import itertools
+    repo = ctx.repo
+    loc = f'{g.mod.relpath}:{g.node.lineno}'
+    WSP, CSG = TT(('Text', 'Whitespace')), TT(('Comment', 'Single'))
+    DML, DDL, CTE, KW, NAME, PUN = TT(('Keyword', 'DML')), TT(('Keyword', 'DDL')), TT(('Keyword', 'CTE')), TT(('Keyword',)), TT(('Name',)), TT(('Punctuation',))
+    cls = {k: repo.classes.get(f'sqlparse.sql.{v}') for k, v in (('S', 'Statement'), ('G', 'Comment'), ('I', 'Identifier'), ('L', 'IdentifierList'), ('P', 'Parenthesis'))}
+    ctx.need(all(cls.values()), 'sqlparse.sql classes not found')
+    leafs = {'w': (WSP, ' '), 'c': (CSG, '-- c\n'), 'sel': (DML, 'select'), 'ins': (DML, 'Insert'), 'cre': (DDL, 'create  or\nreplace'), 'with': (CTE, 'with'),
+             'kw': (KW, 'data'), 'as': (KW, 'as'), 'rec': (KW, 'recursive'), 'val': (KW, 'values'), 'x': (NAME, 'x'), '(': (PUN, '('), ')': (PUN, ')')}
+
+    def build(shape):
+        out = []
+        for s_ in shape:
+            if isinstance(s_, str):
+                t_ = ME.AbsToken(repo, ttype=leafs[s_][0], value=leafs[s_][1])
+                t_.parent = None
+                out.append(t_)
+            else:
+                out.append(group(cls[s_[0]], build(s_[1])))
+        return out
+
+    def group(c_, kids):
+        g_ = ME.AbsToken(repo, cls=c_)
+        g_.tokens, g_.parent, g_.is_whitespace = kids, None, False
+        g_.value = ''.join(k.value for k in kids)
+        for k in kids:
+            k.parent = g_
+        return g_
+
+    def show(shape):
+        return ' '.join(s_ if isinstance(s_, str) else f'{s_[0]}[{show(s_[1])}]' for s_ in shape)
+    ident = ('I', ['x'])
+    ilist = ('L', [('I', ['x']), '(', ('I', ['x'])])
+    paren = ('P', ['(', 'sel', ')'])
+    cm = ('G', ['c'])
+    prefixes = [[], ['w'], [cm, 'w'], ['w', cm, 'w'], ['c'], ['w', 'c', 'w'], [cm, cm]]
+    tail = ['w', ident]
+    cases = []
+    for pre in prefixes:
+        for first, want in (('sel', 'SELECT'), ('ins', 'INSERT'), ('cre', 'CREATE OR REPLACE'), ('kw', 'UNKNOWN'), (ident, 'UNKNOWN'), (paren, 'UNKNOWN')):
+            cases.append(('lead', pre + [first] + tail, want))
+        cases.append(('lead', pre, 'UNKNOWN'))
+        defs = [[ident], [ilist], ['kw', 'w', 'as', 'w', paren], [ident, 'w', 'kw', 'w', paren], ['rec', 'w', ident], [ident, 'w', cm],
+                [ident, '(', ident], ['kw', 'w', 'as', 'w', paren, '(', 'w', ident]]
+        for d in defs:
+            for dml, want in (('sel', 'SELECT'), ('ins', 'INSERT')):
+                cases.append(('cte', pre + ['with', 'w'] + d + ['w', dml] + tail, want))
+            cases.append(('cte-no-dml', pre + ['with', 'w'] + d, 'UNKNOWN'))
+            cases.append(('cte-no-dml', pre + ['with', 'w'] + d + ['w', 'val', 'w', paren], 'UNKNOWN'))
+        cases.append(('cte-no-dml', pre + ['with'], 'UNKNOWN'))
+    bad = {}
+    n = 0
+    for kind, shape, want in cases:
+        st = group(cls['S'], build(shape))
+        ev = ME.Evaluator(ctx, g.mod, g.cls)
+        try:
+            got = ME.run_function(ev, g.node, {g.params[0]: st}, max_steps=500)
+        except (ME.Unsupported, ME.Unknown) as e:
+            ctx.ob('R18.2', 'simulation', loc, 'get_type is evaluable on small statement heads', None, f'{show(shape)}: {e}')
+            return
+        except ME.Crash as e:
+            got = f'crash: {e}'
+        n += 1
+        if got != want:
+            bad.setdefault(kind, []).append(f'[{show(shape)}] -> {got!r}, expected {want!r}')
+    ctx.info['get_type_simulated_heads'] = n
+    for kind, text in (('lead', 'leading DML/DDL keyword (behind whitespace and comments): upper-cased keyword with single blanks, else UNKNOWN'),
+                       ('cte', 'WITH statement: the DML keyword that follows the CTE definitions, whatever shape grouping gives them (Identifier, '
+                               'IdentifierList, ungrouped keyword name + AS + parenthesis, RECURSIVE, trailing comment)'),
+                       ('cte-no-dml', 'WITH statement without a following DML keyword: UNKNOWN')):
+        b = bad.get(kind, [])
+        ctx.ob('R18.2', f'simulation:{kind}', loc, f'{text} ({sum(1 for k, _, _ in cases if k == kind)} heads interpreted)', not b,
+               f'{len(b)} head(s) differ, e.g. {b[:2]}')
 
 
 ACCEPT_CTX = {}
